@@ -363,4 +363,253 @@ example : C05.Spec.octets exAck.fd.header ++ [u8 exAck.fd.code] ++ Spec.ackParam
     = [0x27, 0, 5, 0x10, 1, 2, 0x77, 3, 4, 6, 0x51, 0x52] := by decide
 example : Ack.new PduConfig.default 7 0 0 = .error .value := by rfl
 
+/-! ## Prompt (`C06_prompt_*`) -/
+
+/-- valid Prompt PDUs: both members of `ResponseRequired`, towards the receiver, any configuration -/
+def WFPrompt (p : Prompt) : Prop := p.respReq < 2 ∧ WFBase p.fd 9 0 1
+
+instance (p : Prompt) : Decidable (WFPrompt p) := by unfold WFPrompt; infer_instance
+
+/-- the parameter octet of 727.0-B-5 §5.2.7: response required in bit 7, spare bits zero -/
+def Spec.promptParams (p : Prompt) : Bytes := [u8 (p.respReq * 128)]
+
+def Spec.prompt (p : Prompt) : Bytes := Spec.pdu p.fd (Spec.promptParams p)
+
+theorem C06_prompt_new (c : PduConfig) (wf : WFConf c) (rr : Nat) :
+    ∃ p, Prompt.new c rr = .ok p ∧ p.respReq = rr ∧ p.fd.header.conf = { c with direction := 0 } ∧
+      (rr < 2 → WFPrompt p) := by
+  rw [Prompt.new_eq]
+  have g : ¬ c.source.width ≠ c.dest.width := by have := wf.2.2.2.2.2.2.2.2; omega
+  rw [if_neg g]
+  refine ⟨_, rfl, rfl, rfl, ?_⟩
+  intro h
+  refine ⟨h, ?_, rfl, rfl, rfl, rfl, ?_⟩
+  · apply wf_dirHeader c wf _ _ (by omega)
+    split <;> omega
+  · simp only [crcLen]; split <;> omega
+
+/-- **pack = standard layout** -/
+theorem C06_prompt_pack_exact (p : Prompt) (wf : WFPrompt p) : p.pack = .ok (Spec.prompt p) := by
+  obtain ⟨h1, w1, _, _, w4, _, _⟩ := wf
+  unfold Prompt.pack
+  rw [pack_spec p.fd w1 (by omega), byteOfN_ok (by omega : p.respReq * 128 < 256)]
+  simp only [bind, Except.bind, pure, Except.pure, Spec.prompt, Spec.pdu, Spec.promptParams, specOctets]
+
+/-- **length clauses**: one parameter octet (+2 with CRC) -/
+theorem C06_prompt_len (p : Prompt) (wf : WFPrompt p) :
+    (Spec.prompt p).length = p.packetLen ∧
+    p.fd.header.dataFieldLen = (Spec.prompt p).length - p.fd.header.headerLen ∧
+    p.fd.header.dataFieldLen = p.packetLen - p.fd.header.headerLen ∧
+    (Spec.prompt p).length = p.fd.header.headerLen + 1 + 1 + crcLen p.fd.header.conf :=
+  pdu_len p.fd 9 0 (Spec.promptParams p) wf.2
+
+theorem C06_prompt_crc (p : Prompt) :
+    (p.fd.header.conf.crcFlag = 1 →
+      Spec.prompt p = (C05.Spec.octets p.fd.header ++ [u8 p.fd.code] ++ Spec.promptParams p)
+        ++ Crc.crcTrailer (C05.Spec.octets p.fd.header ++ [u8 p.fd.code] ++ Spec.promptParams p) ∧
+      Crc.crc16 (Spec.prompt p) = 0) ∧
+    (p.fd.header.conf.crcFlag ≠ 1 →
+      Spec.prompt p = C05.Spec.octets p.fd.header ++ [u8 p.fd.code] ++ Spec.promptParams p) :=
+  pdu_crc p.fd (Spec.promptParams p)
+
+private theorem idx_one0 (x : UInt8) : idx [x] 0 = .ok x.toNat := rfl
+private theorem prompt_ar (r : Nat) (h : r < 2) : r * 128 % 256 / 128 % 2 = r := by omega
+
+/-- **round trip**, alone or followed by any further octets -/
+theorem C06_prompt_roundtrip (p : Prompt) (wf : WFPrompt p) (rest : Bytes) :
+    Prompt.unpack (Spec.prompt p ++ rest) = .ok p := by
+  obtain ⟨h1, wb⟩ := wf
+  obtain ⟨hp, _⟩ := prelude_pdu p.fd 9 0 (Spec.promptParams p) rest wb (by omega)
+  have w1 := wb.1
+  rw [Prompt.unpack_eq, Spec.prompt, hp]
+  show Prompt.parse (p.fd, specOctets p.fd ++ Spec.promptParams p) = _
+  unfold Prompt.parse
+  have hl : ¬ p.fd.headerLen ≥ (specOctets p.fd ++ Spec.promptParams p).length := by
+    simp [specOctets_length p.fd w1, Spec.promptParams]
+  have i0 := idx_params p.fd w1 (Spec.promptParams p) 0
+  simp only [Nat.add_zero] at i0
+  simp only [hl, ↓reduceIte, i0, bind, Except.bind, pure, Except.pure]
+  simp only [Spec.promptParams, idx_one0, u8_toNat, prompt_ar p.respReq h1]
+  have : p.respReq = 0 ∨ p.respReq = 1 := by omega
+  rcases this with h | h <;> simp [enumOf, h] <;> (cases p; simp_all)
+
+theorem C06_prompt_eq_repack (p : Prompt) (wf : WFPrompt p) (rest : Bytes) :
+    ∃ p', (p.pack >>= fun b => Prompt.unpack (b ++ rest)) = .ok p' ∧ p' = p ∧
+      p.beq p' = true ∧ p'.beq p = true ∧ p'.pack = p.pack := by
+  refine ⟨p, ?_, rfl, ?_, ?_, rfl⟩
+  · rw [C06_prompt_pack_exact p wf]; exact C06_prompt_roundtrip p wf rest
+  all_goals simp [Prompt.beq, beq_refl]
+
+theorem C06_prompt_documented (d : Bytes) : Documented (Prompt.unpack d) := Prompt.unpack_documented d
+
+theorem C06_prompt_accept_sound (d : Bytes) (p : Prompt) (h : Prompt.unpack d = .ok p) (rest : Bytes) :
+    p.packetLen ≤ d.length ∧ (p.fd.header.conf.crcFlag = 1 → Crc.crc16 (d.take p.packetLen) = 0) ∧
+    Prompt.unpack (d.take p.packetLen ++ rest) = .ok p := by
+  obtain ⟨_, _, _, h4, h5⟩ := Prompt.unpack_inv d p h
+  exact ⟨h4, h5, Prompt.unpack_take d p h rest⟩
+
+-- non-vacuity: Keep Alive response requested, CRC, 8-octet IDs, 4-octet sequence number
+private def exPrompt : Prompt :=
+  ⟨⟨⟨0, 0, 4, ⟨⟨8, 0x0102030405060708⟩, ⟨8, 0x1112131415161718⟩, ⟨4, 0xA1A2A3A4⟩, 0, 0, 1, 0, 1⟩⟩, 9⟩, 1⟩
+example : WFPrompt exPrompt := by decide
+example : Prompt.new ⟨⟨8, 0x0102030405060708⟩, ⟨8, 0x1112131415161718⟩, ⟨4, 0xA1A2A3A4⟩, 0, 0, 1, 1, 1⟩ 1 = .ok exPrompt := by rfl
+example : C05.Spec.octets exPrompt.fd.header ++ [u8 exPrompt.fd.code] ++ Spec.promptParams exPrompt
+    = [0x22, 0, 4, 0xF3, 1, 2, 3, 4, 5, 6, 7, 8, 0xA1, 0xA2, 0xA3, 0xA4, 0x11, 0x12, 0x13, 0x14, 0x15, 0x16, 0x17, 0x18,
+       9, 0x80] := by decide
+
+/-! ## Keep Alive (`C06_keepalive_*`) -/
+
+/-- valid Keep Alive PDUs: every progress value of the selected FSS width (32 bits, 64 with the
+    large-file flag), towards the sender, any configuration -/
+def WFKeepAlive (k : KeepAlive) : Prop :=
+  0 ≤ k.progress ∧ k.progress.toNat < 256 ^ fssWidth k.fd.header.conf.fileFlag ∧
+  WFBase k.fd 12 1 (fssWidth k.fd.header.conf.fileFlag)
+
+instance (k : KeepAlive) : Decidable (WFKeepAlive k) := by unfold WFKeepAlive; infer_instance
+
+/-- the progress field of 727.0-B-5 §5.2.8, big-endian in the selected width -/
+def Spec.keepAliveParams (k : KeepAlive) : Bytes :=
+  beBytes (fssWidth k.fd.header.conf.fileFlag) k.progress.toNat
+
+def Spec.keepAlive (k : KeepAlive) : Bytes := Spec.pdu k.fd (Spec.keepAliveParams k)
+
+private theorem ka_plen (f c : Nat) : paramLenFor f c = fssWidth f + (if c = 1 then 2 else 0) := rfl
+
+theorem C06_keepalive_new (c : PduConfig) (wf : WFConf c) (progress : Int) :
+    ∃ k, KeepAlive.new c progress = .ok k ∧ k.progress = progress ∧
+      k.fd.header.conf = { c with direction := 1 } ∧
+      (0 ≤ progress → progress.toNat < 256 ^ fssWidth c.fileFlag → WFKeepAlive k) := by
+  rw [KeepAlive.new_eq]
+  have g : ¬ c.source.width ≠ c.dest.width := by have := wf.2.2.2.2.2.2.2.2; omega
+  rw [if_neg g]
+  refine ⟨_, rfl, rfl, rfl, ?_⟩
+  intro h0 h1
+  have := KeepAlive.paramLenFor_le c.fileFlag c.crcFlag
+  refine ⟨h0, h1, ?_, rfl, rfl, rfl, rfl, ?_⟩
+  · exact wf_dirHeader c wf _ _ (by omega) (by omega)
+  · simp only [crcLen, ka_plen]; omega
+
+/-- **pack = standard layout**, for every progress value of the full 32- / 64-bit range -/
+theorem C06_keepalive_pack_exact (k : KeepAlive) (wf : WFKeepAlive k) : k.pack = .ok (Spec.keepAlive k) := by
+  obtain ⟨h0, h1, w1, _, _, w4, _, _⟩ := wf
+  unfold KeepAlive.pack
+  rw [pack_spec k.fd w1 (by omega)]
+  by_cases hf : k.fd.header.conf.fileFlag = 1
+  · have hl : k.fd.header.largeFileFlagSet = true := by simp [PduHeader.largeFileFlagSet, hf]
+    have hw : fssWidth k.fd.header.conf.fileFlag = 8 := by simp [fssWidth, hf]
+    rw [hw] at h1
+    simp only [hl, not_true_eq_false, ↓reduceIte, bind, Except.bind, packInt_fits 8 k.progress ⟨h0, h1⟩, pure,
+      Except.pure, Spec.keepAlive, Spec.pdu, Spec.keepAliveParams, specOctets, hw]
+  · have hl : k.fd.header.largeFileFlagSet = false := by simp [PduHeader.largeFileFlagSet, hf]
+    have hw : fssWidth k.fd.header.conf.fileFlag = 4 := by simp [fssWidth, hf]
+    rw [hw] at h1
+    have g := Nak.fits4_le k.progress ⟨h0, h1⟩
+    simp only [hl, Bool.false_eq_true, not_false_eq_true, ↓reduceIte, g, bind, Except.bind,
+      packInt_fits 4 k.progress ⟨h0, h1⟩, pure, Except.pure, Spec.keepAlive, Spec.pdu, Spec.keepAliveParams,
+      specOctets, hw]
+
+/-- **a progress value that does not fit the selected width makes `pack` fail, never truncate**:
+    `ValueError` above 2^32 − 1 without the large-file flag; `struct.error` for negative values and
+    above 2^64 − 1 with the flag -/
+theorem C06_keepalive_fss_overflow (k : KeepAlive) (wf : C05.WF k.fd.header) (hc : k.fd.code < 256)
+    (h : k.progress < 0 ∨ 256 ^ fssWidth k.fd.header.conf.fileFlag ≤ k.progress.toNat) :
+    k.pack = .error .value ∨ k.pack = .error .struct := by
+  unfold KeepAlive.pack
+  rw [pack_spec k.fd wf hc]
+  have h256 : (256 : Nat) ^ 4 = 4294967296 := by decide
+  by_cases hf : k.fd.header.conf.fileFlag = 1
+  · have hl : k.fd.header.largeFileFlagSet = true := by simp [PduHeader.largeFileFlagSet, hf]
+    have hw : fssWidth k.fd.header.conf.fileFlag = 8 := by simp [fssWidth, hf]
+    rw [hw] at h
+    right
+    simp only [hl, not_true_eq_false, ↓reduceIte, bind, Except.bind, ((C06_directive_fss_overflow 8 k.progress).1 h)]
+  · have hl : k.fd.header.largeFileFlagSet = false := by simp [PduHeader.largeFileFlagSet, hf]
+    have hw : fssWidth k.fd.header.conf.fileFlag = 4 := by simp [fssWidth, hf]
+    rw [hw] at h
+    by_cases g : k.progress > 4294967295
+    · left
+      simp only [hl, Bool.false_eq_true, not_false_eq_true, ↓reduceIte, g, bind, Except.bind, throw, throwThe,
+        MonadExceptOf.throw]
+    · right
+      have hneg : k.progress < 0 := by omega
+      simp only [hl, Bool.false_eq_true, not_false_eq_true, ↓reduceIte, g, bind, Except.bind,
+        packInt_neg 4 k.progress hneg]
+
+theorem C06_keepalive_len (k : KeepAlive) (wf : WFKeepAlive k) :
+    (Spec.keepAlive k).length = k.packetLen ∧
+    k.fd.header.dataFieldLen = (Spec.keepAlive k).length - k.fd.header.headerLen ∧
+    k.fd.header.dataFieldLen = k.packetLen - k.fd.header.headerLen ∧
+    (Spec.keepAlive k).length
+      = k.fd.header.headerLen + 1 + fssWidth k.fd.header.conf.fileFlag + crcLen k.fd.header.conf := by
+  have hl : (Spec.keepAliveParams k).length = fssWidth k.fd.header.conf.fileFlag := by
+    simp [Spec.keepAliveParams]
+  have := pdu_len k.fd 12 1 (Spec.keepAliveParams k) (by rw [hl]; exact wf.2.2)
+  rw [hl] at this
+  exact this
+
+theorem C06_keepalive_crc (k : KeepAlive) :
+    (k.fd.header.conf.crcFlag = 1 →
+      Spec.keepAlive k = (C05.Spec.octets k.fd.header ++ [u8 k.fd.code] ++ Spec.keepAliveParams k)
+        ++ Crc.crcTrailer (C05.Spec.octets k.fd.header ++ [u8 k.fd.code] ++ Spec.keepAliveParams k) ∧
+      Crc.crc16 (Spec.keepAlive k) = 0) ∧
+    (k.fd.header.conf.crcFlag ≠ 1 →
+      Spec.keepAlive k = C05.Spec.octets k.fd.header ++ [u8 k.fd.code] ++ Spec.keepAliveParams k) :=
+  pdu_crc k.fd (Spec.keepAliveParams k)
+
+/-- **round trip**, alone or followed by any further octets, for every progress value -/
+theorem C06_keepalive_roundtrip (k : KeepAlive) (wf : WFKeepAlive k) (rest : Bytes) :
+    KeepAlive.unpack (Spec.keepAlive k ++ rest) = .ok k := by
+  obtain ⟨h0, h1, wb⟩ := wf
+  have wb' : WFBase k.fd 12 1 (Spec.keepAliveParams k).length := by simpa [Spec.keepAliveParams] using wb
+  obtain ⟨hp, _⟩ := prelude_pdu k.fd 12 1 (Spec.keepAliveParams k) rest wb' (by omega)
+  have w1 := wb.1
+  rw [KeepAlive.unpack_eq, Spec.keepAlive, hp]
+  show KeepAlive.parse (k.fd, specOctets k.fd ++ Spec.keepAliveParams k) = _
+  rw [KeepAlive.parse_ok _ _ (by simp [specOctets_length k.fd w1, Spec.keepAliveParams])]
+  have := slice_params k.fd w1 (Spec.keepAliveParams k) 0 (fssWidth k.fd.header.conf.fileFlag)
+  simp only [Nat.add_zero] at this
+  rw [this]
+  have e : slice (Spec.keepAliveParams k) 0 (fssWidth k.fd.header.conf.fileFlag) = Spec.keepAliveParams k := by
+    unfold slice
+    rw [List.drop_zero, List.take_of_length_le]
+    simp [Spec.keepAliveParams]
+  rw [e, Spec.keepAliveParams, beNat_beBytes _ _ h1, Int.toNat_of_nonneg h0]
+
+theorem C06_keepalive_eq_repack (k : KeepAlive) (wf : WFKeepAlive k) (rest : Bytes) :
+    ∃ k', (k.pack >>= fun b => KeepAlive.unpack (b ++ rest)) = .ok k' ∧ k' = k ∧
+      k.beq k' = true ∧ k'.beq k = true ∧ k'.pack = k.pack := by
+  refine ⟨k, ?_, rfl, ?_, ?_, rfl⟩
+  · rw [C06_keepalive_pack_exact k wf]; exact C06_keepalive_roundtrip k wf rest
+  all_goals simp [KeepAlive.beq, beq_refl]
+
+/-- **the `file_flag` setter keeps the length consistent** (including the CRC trailer): afterwards
+    the PDU is the one a fresh constructor call with the new flag gives -/
+theorem C06_keepalive_set_file_flag (c : PduConfig) (progress : Int) (f : Nat) :
+    (KeepAlive.new c progress >>= fun k => k.setFileFlag f) = KeepAlive.new { c with fileFlag := f } progress := by
+  rw [KeepAlive.new_eq, KeepAlive.new_eq]
+  by_cases g : c.source.width ≠ c.dest.width
+  · have g' : ({ c with fileFlag := f } : PduConfig).source.width ≠ ({ c with fileFlag := f } : PduConfig).dest.width := g
+    rw [if_pos g, if_pos g']
+    rfl
+  · have g' : ¬ ({ c with fileFlag := f } : PduConfig).source.width ≠ ({ c with fileFlag := f } : PduConfig).dest.width := g
+    rw [if_neg g, if_neg g']
+    simp only [bind, Except.bind, KeepAlive.setFileFlag_eq]
+
+theorem C06_keepalive_documented (d : Bytes) : Documented (KeepAlive.unpack d) := KeepAlive.unpack_documented d
+
+theorem C06_keepalive_accept_sound (d : Bytes) (k : KeepAlive) (h : KeepAlive.unpack d = .ok k) (rest : Bytes) :
+    k.packetLen ≤ d.length ∧ (k.fd.header.conf.crcFlag = 1 → Crc.crc16 (d.take k.packetLen) = 0) ∧
+    KeepAlive.unpack (d.take k.packetLen ++ rest) = .ok k := by
+  obtain ⟨_, _, _, h4, h5⟩ := KeepAlive.unpack_inv d k h
+  exact ⟨h4, h5, KeepAlive.unpack_take d k h rest⟩
+
+-- non-vacuity: 64-bit progress with every octet different (a byte-order error would show), CRC
+private def exKa : KeepAlive :=
+  ⟨⟨⟨0, 0, 11, ⟨⟨1, 0x21⟩, ⟨1, 0x43⟩, ⟨2, 0x6587⟩, 1, 1, 1, 1, 0⟩⟩, 12⟩, 0x0102030405060708⟩
+example : WFKeepAlive exKa := by decide
+example : KeepAlive.new ⟨⟨1, 0x21⟩, ⟨1, 0x43⟩, ⟨2, 0x6587⟩, 1, 1, 1, 0, 0⟩ 0x0102030405060708 = .ok exKa := by rfl
+example : C05.Spec.octets exKa.fd.header ++ [u8 exKa.fd.code] ++ Spec.keepAliveParams exKa
+    = [0x2F, 0, 11, 0x01, 0x21, 0x65, 0x87, 0x43, 12, 1, 2, 3, 4, 5, 6, 7, 8] := by decide
+example : WFKeepAlive ⟨⟨⟨0, 0, 5, ⟨⟨1, 0⟩, ⟨1, 0⟩, ⟨1, 0⟩, 0, 0, 0, 1, 0⟩⟩, 12⟩, 4294967295⟩ := by decide
+
 end SpVerif.Props.C06Fixed
